@@ -92,6 +92,21 @@ impl Assignment {
         &self.value
     }
 
+    /// What `modify <name> = ..` writes: the variable the name denotes at that point (innermost scope first),
+    /// which must be one captured from an enclosing function -- not a variable or parameter of this function
+    /// (an earlier `modify` of this function leaves the name behind as the captured variable it is).
+    pub(crate) fn modify_target(user_data: &AssocFileData, name: &str) -> Result<Option<Ident>> {
+        let Some((found, is_captured)) = user_data.get_dependency_flags_from_name(name) else {
+            return Ok(None);
+        };
+
+        if !is_captured && !found.is_instance_callback_variable().unwrap_or(false) {
+            bail!("`{name}` is a variable of this function, not one captured from an enclosing function")
+        }
+
+        Ok(Some(found.to_owned()))
+    }
+
     pub fn can_modify_if_applicable(
         &self,
         user_data: &AssocFileData,
